@@ -11,12 +11,9 @@ namespace FatVerif
 def clockEpochStart : Nat := 45296780   -- 12:34:56.780
 
 def clockDate (ms : Nat) : Date :=
-  let days := ms / 86400000
-  let dom := 2 + days            -- day of month counted from Feb 2; months are capped at 28 days
-  let m0 := (dom - 1) / 28       -- months after February
-  let day := (dom - 1) % 28 + 1
-  let monthIdx := 1 + m0         -- 0-based month index from January 2020
-  ⟨2020 + monthIdx / 12, monthIdx % 12 + 1, day⟩
+  let d := 1 + ms / 86400000
+  let m := 1 + d / 28
+  ⟨min 2107 (2020 + m / 12), m % 12 + 1, d % 28 + 1⟩
 
 def clockTime (ms : Nat) : Time :=
   let r := ms % 86400000
@@ -48,7 +45,7 @@ def nextCluster (c : Nat) : Prog (Option Nat) := do
   | some (.error e) => .fail e
 
 /-- `FsInfoSector::map_free_clusters` -/
-def FsInfo.mapFree (i : FsInfo) (f : Nat → Nat) : FsInfo :=
+def FsInfoSt.mapFree (i : FsInfoSt) (f : Nat → Nat) : FsInfoSt :=
   match i.free with
   | some n => { i with free := some (f n), dirty := true }
   | none => i
@@ -208,7 +205,7 @@ def write (f : FileH) (buf : List Nat) : Prog (Nat × FileH) := do
   let writeSize := min (min buf.length leftInCluster) leftToMax
   if writeSize = 0 then pure (0, f)
   else do
-    Prog.tryCatch (setDirtyFlag true) (fun e => .fail e)
+    setDirtyFlag true
     let (cur, f) ← (if f.offset % cs = 0 then do
         let nxt ← boundaryCluster f
         match nxt with
